@@ -5,7 +5,7 @@ import re
 
 from . import refinterp as I
 from . import refparse as P
-from .common import WORK, Stats, Violation, collect, finish, hx, pmap, shim
+from .common import WORK, Stats, Violation, collect, finish, hx, pmap, shim, strip_sgr
 from .eng_optdiff import big, loop_program
 
 RUN_BOUND = 400
@@ -351,13 +351,18 @@ def sessions_task(name, text, scripts):
         f.write(text)
     for script in scripts:
         data = ''.join(l + '\n' for l in script)
-        r = sh.child('debug', hx(path), hx(data), 20)
+        if name.endswith('+color'):
+            r = sh.child('debug', hx(path), hx(data), 20, 'always')
+            r.out, r.err = strip_sgr(r.out), strip_sgr(r.err)
+            st.inc('sessions_with_colour')
+        else:
+            r = sh.child('debug', hx(path), hx(data), 20)
         st.inc('sessions')
         st.inc('transitions', len(script))
         if len(st.samples) < 3:
             st.sample({'program': name, 'script': list(script), 'status': r.status})
         res = check_session(prog, list(script), r.status, r.out.decode('utf-8', 'replace'), r.err.decode('utf-8', 'replace'),
-                            5000 if name.startswith('scale') else None)
+                            5000 if name.startswith('scale') else None)   # (names: scale-*, scale-*+color)
         if res is None and name.startswith('scale'):
             st.inc('scale_sessions_compared')
         st.add('status', r.status)
@@ -525,6 +530,8 @@ def run_c11(tier):
     for (name, text), scripts in bykey.items():
         for i in range(0, len(scripts), 60):
             tasks.append((name, text, scripts[i:i + 60]))
+    # the same sessions with `--color always` (every 4th script): colour sequences removed, the text must be the same
+    tasks += [(t[0] + '+color', t[1], t[2][::4]) for t in tasks if len(t[2]) >= 4]
     collect(st, pmap(_task, [(t,) for t in tasks]))
     cov = {
         'states': nstates,
@@ -536,7 +543,8 @@ def run_c11(tier):
                 'states merged on (history, breakpoints), every transition replayed along a shortest script. Every script is '
                 'run on the real `debug::run` (stdin script, EOF at the end) and the transcript compared event by event.',
         'scope': {'programs': {n: t if len(t) < 120 else t[:60] + '…' for n, t in PROGRAMS}, 'per_program': info,
-                  'commands': D15, 'bfs_commands': D8},
+                  'commands': D15, 'bfs_commands': D8,
+                  'sessions_repeated_with_colour_always': st.n.get('sessions_with_colour', 0)},
         'distinct_outcomes': sorted(st.sets.get('status', ())),
         'samples': [['n', 's', 'b 3', 'b', 'r', 's', 'p', 'p'], ['b 2', 'b', 'r'], ['r', 'p', 'n', 'n']],
     }
